@@ -37,7 +37,7 @@ VARIANTS = {
     "plain": ("gcc", "g++", ["-O2"], [], []),
     "asan": ("clang", "clang++",
              ["-O1", "-fsanitize=address,undefined", "-fno-sanitize-recover=undefined",
-              "-fno-sanitize=vptr,function,float-divide-by-zero,nonnull-attribute,pointer-overflow"], [], []),
+              "-fno-sanitize=vptr,function,float-divide-by-zero,nonnull-attribute,pointer-overflow,signed-integer-overflow"], [], []),
     "sim": ("clang", "clang++", ["-O1"] + SIMCOV,
             ["-include", VSIM + "/cprelude.h"], ["-include", VSIM + "/prelude.h"]),
     "simls": ("clang", "clang++", ["-O1"] + SIMLS,
